@@ -233,6 +233,7 @@ pub fn forgets(_r: &dyn Runner, tier: Tier, st: &St, out: &mut Vec<Edge>) {
             for stage in 0..3u8 {
                 if stage != 0 && pat.n == 0 { continue; }
                 for &f in &follows {
+                    if stage == 0 { out.push(Edge::ForgetRangeTyped { splice: false, a: a as u8, b: b as u8, pat, rn: 0, follow: f }); out.push(Edge::ForgetRangeTyped { splice: true, a: a as u8, b: b as u8, pat, rn: 2, follow: f }); }
                     out.push(Edge::ForgetRange { splice: false, a: a as u8, b: b as u8, pat, stage, rn: 0, follow: f });
                     for rn in [0u8, 2] { out.push(Edge::ForgetRange { splice: true, a: a as u8, b: b as u8, pat, stage, rn, follow: f }); }
                 }
@@ -415,7 +416,8 @@ pub fn edges_for(prop: Prop, tier: Tier, r: &dyn Runner, st: &St) -> Vec<Edge> {
         Prop::C11 => { elementwise(r, tier, st, &mut v); ranges(r, tier, st, true, &mut v); clones(r, tier, st, &mut v); }
         Prop::C10 => { capacity(r, tier, st, bounds(prop, tier).lmax, &mut v); elementwise(r, tier, st, &mut v); }
         Prop::C04 => { wrong_types(r, tier, st, &mut v); movers(&mut v); }
-        Prop::C03 | Prop::C05 => { elementwise(r, tier, st, &mut v); ranges(r, tier, st, true, &mut v); adaptors(r, tier, st, true, &mut v); clones(r, tier, st, &mut v); lazies(r, tier, st, &mut v); histories(r, tier, st, &mut v); three(r, tier, st, &mut v); }
+        Prop::C03 | Prop::C05 => {
+            if prop == Prop::C05 { capacity(r, tier, st, bounds(prop, tier).lmax, &mut v); v.retain(|e| !matches!(e, Edge::Cap(_, CapCall::PushRun, _))); } elementwise(r, tier, st, &mut v); ranges(r, tier, st, true, &mut v); adaptors(r, tier, st, true, &mut v); clones(r, tier, st, &mut v); lazies(r, tier, st, &mut v); histories(r, tier, st, &mut v); three(r, tier, st, &mut v); }
         _ => {}
     }
     v
